@@ -173,3 +173,73 @@ theorem get_of_refLS (s : LState) (p : SpecL) (k : Key) (h : RefLS s p) :
     by_cases he : n.ans.exp ≤ s.now <;> simp [he]
 
 end Model.Cache
+
+namespace Model.Cache
+
+/-! ### per-key hit counts (`LRUCacheNode.hits`, `get_hits_for_key`) -/
+
+/-- what the per-key counter must be: hits of that key since it was last stored -/
+def hitsStep (h : Key → Nat) (op : Op) (out : Out) : Key → Nat :=
+  match op, out with
+  | .put k _, _ => fun k' => if k' = k then 0 else h k'
+  | .get k, .val _ => fun k' => if k' = k then h k + 1 else h k'
+  | _, _ => h
+
+def hitsSpec (h : Key → Nat) : List (Op × Out) → Key → Nat
+  | [] => h
+  | (op, out) :: rest => hitsSpec (hitsStep h op out) rest
+
+def HitsOk (s : LState) (h : Key → Nat) : Prop := ∀ n ∈ s.ring, n.hits = h n.key
+
+theorem hitsOk_step (s : LState) (h : Key → Nat) (op : Op) (hm : 1 ≤ s.maxSize) (hk : HitsOk s h) :
+    HitsOk (stepL s op).1 (hitsStep h op (stepL s op).2) := by
+  cases op with
+  | get k =>
+    simp only [stepL]
+    split
+    · exact hk
+    · rename_i n hf
+      have hn := findNode_some hf
+      split
+      · simp only [hitsStep]
+        exact fun x hx => hk x (mem_removeKey.mp hx).1
+      · simp only [hitsStep]
+        intro x hx
+        rcases List.mem_cons.mp hx with e | hx
+        · subst e; simp only [hn.2, if_true]; rw [hk n hn.1, hn.2]
+        · have := mem_removeKey.mp hx
+          simp only [this.2, if_false]; exact hk x this.1
+  | put k a =>
+    intro x hx
+    rw [stepL_put s k a hm] at hx
+    simp only [stepL, hitsStep]
+    rcases List.mem_cons.mp hx with e | hx
+    · subst e; simp
+    · have := mem_removeKey.mp (List.mem_of_mem_take hx)
+      simp only [this.2, if_false]; exact hk x this.1
+  | flush k => simp only [stepL, hitsStep]; exact fun x hx => hk x (mem_removeKey.mp hx).1
+  | flushAll => simp only [stepL, hitsStep]; exact fun x hx => nomatch hx
+  | setMax n =>
+    simp only [stepL, hitsStep]
+    rw [evictTo_eq_take _ (by omega)]
+    exact fun x hx => hk x (List.mem_of_mem_take hx)
+  | adv dt => exact hk
+  | hits => exact hk
+  | misses => exact hk
+  | hitsFor k =>
+    simp only [stepL]
+    split
+    · exact hk
+    · split <;> exact hk
+  | reset => exact hk
+  | snapshot => exact hk
+
+theorem hitsOk_run (s : LState) (h : Key → Nat) (ops : List Op) (hi : InvL s) (hk : HitsOk s h) :
+    HitsOk (runL s ops).1 (hitsSpec h (ops.zip (runL s ops).2)) := by
+  induction ops generalizing s h with
+  | nil => exact hk
+  | cons op rest ih =>
+    simp only [runL, List.zip_cons_cons, hitsSpec]
+    exact ih _ _ (invL_step s op hi) (hitsOk_step s h op hi.maxPos hk)
+
+end Model.Cache
